@@ -23,6 +23,34 @@ E_EXEMPT = {
 }
 
 
+def _judged_by_the_predicate(mir, b, drop_term):
+    """the dropped local was cloned into the argument vector of an eval_func_with_values call of the same body (directly, or inside
+    a local closure of that body that receives a reference to it)"""
+    if b.kind != 'closure' or not strip_generics(mir.enclosing_fn(b)).endswith('XGenerator::_iter'):
+        return False
+    l = drop_term['place']['l']
+    fam = [b] + [x for x in mir.bodies if x.kind == 'closure' and x.nid.startswith(b.nid + '::{closure')]
+    if not any(strip_generics(t.get('callee') or '') == 'runtime_scope::RuntimeScope::eval_func_with_values' for x in fam for _, t in x.calls()):
+        return False
+    # a reference to the local is taken and handed to Clone::clone or to a local closure
+    refs = {s['place']['l'] for i, j, s in b.stmts() if s['k'] == 'assign' and s['rv']['k'] == 'ref' and s['rv']['place']['l'] == l and not s['place']['p']}
+    more = True
+    while more:
+        more = False
+        for i, j, s in b.stmts():
+            if s['k'] == 'assign' and not s['place']['p'] and s['place']['l'] not in refs and s['rv']['k'] in ('use', 'ref', 'agg'):
+                srcs = mirq.operand_locals_of_rv(s['rv'])
+                if any(x in refs for x in srcs):
+                    refs.add(s['place']['l'])
+                    more = True
+    for bb, t in b.calls():
+        if any(op_local(a) in refs for a in t['args']):
+            nm = strip_generics(t.get('callee') or t.get('decl') or '')
+            if nm.endswith('Clone>::clone') or nm.endswith('::clone') or 'Fn' in (t.get('decl') or '') or '{closure' in (t.get('callee') or ''):
+                return True
+    return False
+
+
 def may_hold(ty, key, known, kind):
     """can a value of type `ty` at place `key`, given known discriminants, still contain a violation (kind V) / error (kind E)?"""
     head, args = split_generic(ty)
@@ -395,6 +423,12 @@ def run(ctx):
         r3.inst({'body': b.id, 'site': mirq.site(b, bb), 'registered_as': sorted(names), 'handler': ok}, ok=ok, kind=(b.id, bb))
         if not ok and (b.nid, 'drop') in E_EXEMPT:
             r3.exempted(b.nid, E_EXEMPT[(b.nid, 'drop')])
+            continue
+        if not ok and _judged_by_the_predicate(mir, b, t):
+            # an element a filter / skip_until rejects: it was handed (cloned) to the program's predicate first, and a call with an
+            # erroring argument returns that error (R06.4), which these adaptors yield -- so the element dropped on the other
+            # paths is not an error value
+            r3.exempted('%s: element dropped after the predicate saw it' % strip_generics(mir.enclosing_fn(b)), 'the dropped element was an argument of eval_func_with_values in this body; had it been an error value, the call would have returned it (R06.4)')
             continue
         if not ok:
             r3.fail('%s/drop' % b.nid, mirq.site(b, bb), 'an error value (%s) may be dropped here: the error is swallowed by a function that is not a documented error handler' % t['pty'][:60], {'known': kn})
